@@ -312,16 +312,69 @@ def one_round(hbin, n, vlog_every, seed=None, workdir="run"):
         raise RuntimeError("h-c11 gen failed rc=%s: %s" % (rc, gerr[-2000:]))
     gen = parse_stream(gout)
     results = {}
+    loads = {}
     for lq in ("same", "none", "other"):
         rc, lout, lerr = vlib.run([hbin, "load", d, lq], timeout=1500, env=env)
         if rc != 0:
             raise RuntimeError("h-c11 load %s failed rc=%s: %s" % (lq, rc, lerr[-2000:]))
         load = parse_stream(lout)
+        loads[lq] = load
         rc2, model, err2 = vlib.run([_oracle()], input_bytes=merged_stream(gen, load).encode(), timeout=1500)
         if rc2 != 0:
             raise RuntimeError("oracle failed rc=%s: %s" % (rc2, err2[-2000:]))
         results[lq] = compare(gen, load, model, lq)
+    one_round.loads = loads
     return d, gen, results
+
+
+def cli_round(d, gen, load_none, limit):
+    """The real `bondmachine` CLI on the saved files: a read-only option (-list-processors) loads the file
+    (Unmarshal, Dejsoner, Init) and always rewrites it; the rewritten file must be byte-identical.
+    Run on tool-built bondmachines that the default-configured CLI can load (no linear-quantizer / FloPoCo opcode)."""
+    cli = vlib.go_build_repo("bondmachine")
+    _, gcases, order = gen
+    _, lcases, _ = load_none
+    st = {"cli_runs": 0, "cli_same": 0, "cli_with_attachments": 0, "cli_domains_ne_processors": 0}
+    fails = []
+    for cid in order:
+        if st["cli_runs"] >= limit:
+            break
+        g, l = gcases[cid], lcases.get(cid)
+        if g["head"].split()[2] != "bm" or l is None:
+            continue
+        ogen = kvs(first_of(g["lines"], "O.gen"))
+        oload_line = first_of(l["lines"], "O.load")
+        oload = kvs(oload_line)
+        if ogen.get("raw") == "1" or "resave" not in oload or oload.get("nilops") != "0" or oload.get("nilsos") != "0":
+            continue
+        src = os.path.join(d, cid + ".json")
+        wd = os.path.join(d, cid, "cli")
+        os.makedirs(wd, exist_ok=True)
+        dst = os.path.join(wd, "bm.json")
+        shutil.copyfile(src, dst)
+        rc, so, se = vlib.run([cli, "-bondmachine-file", "bm.json", "-list-processors"], timeout=60, cwd=wd, env=vlib.goenv())
+        before, after = open(src, "rb").read(), open(dst, "rb").read()
+        st["cli_runs"] += 1
+        lb = kvs(first_of(g["lines"], "L.B"))
+        att = any(x for x in lb.get("slinks", "0:").split(":", 1)[-1].split("|") if x)
+        if att:
+            st["cli_with_attachments"] += 1
+        if lb.get("ndom") != lb.get("procs", "0:").split(":")[0]:
+            st["cli_domains_ne_processors"] += 1
+        if rc == 0 and before == after:
+            st["cli_same"] += 1
+            continue
+        tag = g["head"].split(None, 3)[3] if len(g["head"].split(None, 3)) > 3 else ""
+        detail = "bondmachine -bondmachine-file bm.json -list-processors (read-only) rc=%s " % rc
+        if before != after:
+            k = next((i for i in range(min(len(before), len(after))) if before[i] != after[i]), min(len(before), len(after)))
+            detail += "rewrote the file differently at byte %d: saved …%s… rewritten …%s…" % (
+                k, before[max(0, k - 60):k + 60].decode("utf-8", "replace"), after[max(0, k - 60):k + 60].decode("utf-8", "replace"))
+        else:
+            detail += "failed: " + (se or so)[-300:]
+        fails.append({"kind": "property-fails-on-impl", "case": cid, "tag": tag, "lq": "cli", "gen": g["lines"],
+                      "load": [], "model": [], "detail": detail})
+    return st, fails
 
 
 def summarize(rep, results, extra=None):
@@ -394,9 +447,11 @@ def run(rep):
     if os.path.exists(_oracle()):
         n, ve = (1500, 1) if thorough else (160, 1)
         d, gen, results = one_round(hbin, n, ve)
-        summarize(rep, results, {"samples": samples_of(gen)})
+        cst, cfails = cli_round(d, gen, one_round.loads["none"], 400 if thorough else 70)
+        summarize(rep, results, {"samples": samples_of(gen), "cli": cst})
         for lq in results:
             fails_all += results[lq][1]
+        fails_all += cfails
     else:
         rep.coverage.update({"evaluations": 0, "distinct_nontrivial": 0, "rule": "correspondence did not run (oracle missing)",
                              "samples": [{"note": "correspondence did not run"}], "traces_validated_against_impl": 0})
@@ -418,13 +473,14 @@ def run(rep):
             o.update(extra)
         return o
 
-    def size(f):
-        return sum(len(x) for x in f["gen"] if x.startswith("L."))
+    def size(f):   # tool-built machines before hand-made files, then the smallest
+        n = sum(len(x) for x in f["gen"] if x.startswith("L."))
+        return (0 if n else 1, n)
 
     real.sort(key=size)   # report the smallest failing machine
     nil.sort(key=size)
     if real:
-        rep.violation(replay_obj(real[0]))
+        rep.violation(replay_obj(real[0], {"other_failing_cases": ["%s/%s/%s" % (f["case"], f["lq"], f["tag"]) for f in real[1:40]]}))
     if nil:
         known = [k for k in vlib.load_known_findings(PROP) if k.get("id") == FINDING_NIL]
         # signature of the finding: a tool-built machine whose only problem is an opcode that the loading process'
